@@ -162,7 +162,10 @@ let model input =
   let tr = Stdlib.List.map (fun (t, k) -> (nat_of_int t, k)) sc.trace in
   let st = Conc.crun sc.h.forbidden hdr (Conc.cinit (setup_store sc)) tr in
   if st.Conc.c_bad || not (Conc.quiescent st) then "NOT-SERIALISED" else begin
+    let is_exp = Stdlib.List.mem "exp" sc.h.extras in
+    (* x=exp: the headers are delivered through experimental peers, whose handler does not expose Add's outcome *)
     let outs = Stdlib.List.map (fun (tid, _) ->
+        if is_exp then "?" else
         match Stdlib.List.assoc_opt (nat_of_int tid) st.Conc.c_outs with
         | Some o -> outcome_string o | None -> "?") sc.conc in
     let tips = Stdlib.List.rev_map (function Some i -> dec_of_n i | None -> "-2") st.Conc.c_tips in
